@@ -67,12 +67,24 @@ fn main() {
         let owner = name(&mut rng);
         let class = *rng.pick(&[1u16, 1, 1, 3, 4, 254, 255, 4660]);
         let ttl = *rng.pick(&[0u32, 1, 3600, 86400, 2147483647]);
-        let (rtype, rdata): (u16, Vec<u8>) = match rng.below(6) {
+        let (rtype, rdata): (u16, Vec<u8>) = match rng.below(11) {
             0 | 1 => (16, { let k = 1 + rng.below(3); (0..k).flat_map(|_| cs(&mut rng)).collect() }),
             2 => (13, [cs(&mut rng), cs(&mut rng)].concat()),
             3 => (*rng.pick(&[2u16, 5, 12, 39]), name(&mut rng)),
             4 => (15, [rng.pick(&[0u16, 10, 65535]).to_be_bytes().to_vec(), name(&mut rng)].concat()),
-            _ => (*rng.pick(&[65280u16, 1234]), { let k = rng.below(40) as usize; rng.bytes(k) }),
+            5 => (*rng.pick(&[65280u16, 1234]), { let k = rng.below(40) as usize; rng.bytes(k) }),
+            // binary fields in Base32hex / Base64 / Base16: every length residue,
+            // random last octets (the specification abstains on these types; the
+            // round-trip law itself is checked)
+            6 | 7 => (50, { // NSEC3: alg flags iterations salt hash bitmap
+                let salt = { let k = rng.below(6) as usize; rng.bytes(k) };
+                let hmax = if rng.chance(1, 6) { 64 } else { 12 };
+                let hash = { let k = 1 + rng.below(hmax) as usize; rng.bytes(k) };
+                [vec![1, rng.below(2) as u8], (rng.next() as u16).to_be_bytes().to_vec(), vec![salt.len() as u8], salt,
+                 vec![hash.len() as u8], hash, vec![0, 1, 0x40]].concat() }),
+            8 => (48, { let k = 1 + rng.below(40) as usize; [vec![1, 1, 3, 13], rng.bytes(k)].concat() }),
+            9 => (61, { let k = 1 + rng.below(40) as usize; rng.bytes(k) }),
+            _ => (43, { let k = 1 + rng.below(40) as usize; [vec![0, 7, 8, 2], rng.bytes(k)].concat() }),
         };
         let rec = match zf::record_from_wire(&owner, class, ttl, rtype, &rdata) {
             Ok(r) => r,
